@@ -82,11 +82,7 @@ def exhaustive_strings():
     return ["".join(t) for n in range(4) for t in itertools.product(ALPHABET, repeat=n)]
 
 
-def _xmlchar(r):
-    lo, hi = r.choice([(0x20, 0x7E), (0xA0, 0x24F), (0x370, 0x3FF), (0x4E00, 0x4E40), (0xE000, 0xE010), (0xFFF0, 0xFFFD), (0x10000, 0x10FFFF)])
-    return chr(r.randint(lo, hi))
-
-
+XMLCHAR_RANGES = [(0x20, 0x7E), (0xA0, 0x24F), (0x370, 0x3FF), (0x4E00, 0x4E40), (0xE000, 0xE010), (0xFFF0, 0xFFFD), (0x10000, 0x10FFFF)]
 TOKENS = {
     "markup": ["<", ">", "&", '"', "'", "</a:t>", "<a:br/>", "<!--", "-->", "<?x?>", "<a:t>", "/>"],
     "entity-like": ["&amp;", "&lt;", "&#10;", "&#x0B;", "&#0;", "&nbsp;", "&#xD800;", "&#13;", "&", ";"],
@@ -103,6 +99,7 @@ CLASSES = ["whitespace-only", "leading-trailing-break", "break-runs", "mixed"] +
 def random_string(r, cls):
     word = lambda: "".join(r.choice("abxyz09\u00e9\u4e2d") for _ in range(r.randint(1, 4)))  # noqa: E731
     brk = lambda n: "".join(r.choice("\n\v") for _ in range(r.randint(1, n)))  # noqa: E731
+    anychar = lambda: chr(r.randint(*r.choice(XMLCHAR_RANGES)))  # noqa: E731
     if cls == "whitespace-only":  # includes the empty string
         return "".join(r.choice(" \t") for _ in range(r.randint(0, 5)))
     if cls == "leading-trailing-break":
@@ -111,7 +108,7 @@ def random_string(r, cls):
         return "".join(r.choice([word(), " ", "\t", ""]) + brk(4) for _ in range(r.randint(1, 3))) + r.choice([word(), ""])
     if cls == "mixed":
         pool = [t for v in TOKENS.values() for t in v]
-        return "".join(r.choice([r.choice(pool), _xmlchar(r), word(), " ", brk(2)]) for _ in range(r.randint(2, 6)))
+        return "".join(r.choice([r.choice(pool), anychar(), word(), " ", brk(2)]) for _ in range(r.randint(2, 6)))
     parts = [r.choice([r.choice(TOKENS[cls]), r.choice(TOKENS[cls]), word(), " ", "\n", "\v", ""]) for _ in range(r.randint(1, 5))]
     if not any(p in TOKENS[cls] for p in parts):
         parts.append(r.choice(TOKENS[cls]))
@@ -119,17 +116,9 @@ def random_string(r, cls):
 
 
 def feature_class(s):
-    if s == "":
-        return "x3:empty"
-    if not s.strip(" \t"):
-        return "x3:whitespace-only"
-    if "\n" in s or "\v" in s:
-        return "x3:break"
-    if "\x07" in s:
-        return "x3:control"
-    if "&" in s or "<" in s:
-        return "x3:markup"
-    return "x3:astral" if "\U0001F600" in s else "x3:plain"
+    tests = [("empty", s == ""), ("whitespace-only", not s.strip(" \t")), ("break", "\n" in s or "\v" in s), ("control", "\x07" in s),
+             ("markup", "&" in s or "<" in s), ("astral", "\U0001F600" in s), ("plain", True)]
+    return "x3:" + next(name for name, hit in tests if hit)
 
 
 def nontrivial(s):
@@ -192,8 +181,7 @@ def para_text(f):
     return "".join("\v" if k == "br" else t for k, t in f["toks"])
 
 
-def frame_text(fs):
-    return "\n".join(para_text(f) for f in fs)
+frame_text = lambda fs: "\n".join(para_text(f) for f in fs)  # noqa: E731
 
 
 def saved_bodies(blob):
@@ -307,13 +295,15 @@ def body_of(obj, kind):
 _ESC = re.compile("_x[0-9A-Fa-f]{4}_")
 
 
-def diff_class(want, got):
+def diff_class(want, got, level=None):
     if got is None:
         return "missing"
-    if got.count("\n") != want.count("\n"):
+    if level != "run" and got.count("\n") != want.count("\n"):  # in a run a newline is a plain character
         return "extra-paragraph" if got.count("\n") > want.count("\n") else "lost-paragraph"
-    if got.count("\v") != want.count("\v"):
+    if level != "run" and got.count("\v") != want.count("\v"):
         return "lost-vtab" if got.count("\v") < want.count("\v") else "extra-vtab"
+    if sorted(want) == sorted(got):
+        return "reordered"
     strip = lambda x: _ESC.sub("", _CTRL.sub("", x))  # noqa: E731
     if strip(want) == strip(got):
         return "wrong-escape"
@@ -385,7 +375,7 @@ def run_batch(cases, cycles, acc, attributed, say=None):
             continue
         say("assigned", ascii(s), "expected", ascii(c.want), "read back", ascii(got))
         if got != c.want:
-            vio(c, "readback:%s:%s" % (level, diff_class(c.want, got)), "read back %r, documented result %r" % (got, c.want))
+            vio(c, "readback:%s:%s" % (level, diff_class(c.want, got, level)), "read back %r, documented result %r" % (got, c.want))
         # what the whole body must now read, from the prior content and the model
         if level == "para":
             paras = [para_text(f) for f in c.before]
@@ -406,15 +396,21 @@ def run_batch(cases, cycles, acc, attributed, say=None):
             c.dead = True
             continue
         c.after = facts(plain(b))
-        check_structure(c, c.after, vio, "structure")
+        check_structure(c, c.after, vio)
         acc.count("element_trees_inspected")
 
     live = [c for c in cases if not c.dead]
     for cyc in range(1, cycles + 1):
-        buf = io.BytesIO()
-        prs.save(buf)
-        blob = buf.getvalue()
+        try:
+            buf, step = io.BytesIO(), "save"
+            prs.save(buf)
+            blob, step = buf.getvalue(), "load"
+            prs = pptx.Presentation(io.BytesIO(blob))
+        except Exception as e:  # noqa - the deck holds nothing but in-domain text: it must save and load
+            key = "reopen:%s-raises-%s" % (step, type(e).__name__)
+            return vio(attribute(cases, key, attributed), key, "%s %d of the deck raised %r" % (step, cyc, e))
         acc.count("saves")
+        acc.count("reopens")
         bodies, parts = saved_bodies(blob)
         if cyc == 1:
             side_monitor(cases, baseline, parts, acc, attributed, say)
@@ -429,8 +425,6 @@ def run_batch(cases, cycles, acc, attributed, say=None):
                     "saved slide XML (cycle %d) holds %r, expected %r" % (cyc, stored, c.frame_want))
             elif [(f["toks"], f["pPr"]) for f in fs] != [(f["toks"], f["pPr"]) for f in c.after]:
                 vio(c, "stored:%s:differs-from-tree" % c.level, "saved paragraphs differ from the element tree (cycle %d)" % cyc)
-        prs = pptx.Presentation(io.BytesIO(blob))
-        acc.count("reopens")
         objs = containers(list(prs.slides), live)
         for c in live:
             obj = objs.get((c.si, c.sid))
@@ -446,14 +440,14 @@ def run_batch(cases, cycles, acc, attributed, say=None):
             acc.count("reopen_comparisons")
             say("cycle", cyc, "re-opened reads", ascii(got))
             if got != c.want:
-                vio(c, "reopen:%s:%s" % (c.level, diff_class(c.want, got)), "after re-open %d reads %r, expected %r" % (cyc, got, c.want))
+                vio(c, "reopen:%s:%s" % (c.level, diff_class(c.want, got, c.level)), "after re-open %d reads %r, expected %r" % (cyc, got, c.want))
             elif whole != c.frame_want:
                 vio(c, "reopen:%s:frame-%s" % (c.level, diff_class(c.frame_want, whole)),
                     "after re-open %d the whole body reads %r, expected %r" % (cyc, whole, c.frame_want))
 
 
-def check_structure(c, fs, vio, tag):
-    level, s = c.level, c.s
+def check_structure(c, fs, vio):
+    level, s, tag = c.level, c.s, "structure"
     tree_text = frame_text(fs)
     if tree_text != c.frame_want:
         vio(c, "%s:%s:tree-text-%s" % (tag, level, diff_class(c.frame_want, tree_text)),
@@ -492,6 +486,7 @@ def check_structure(c, fs, vio, tag):
 
 
 def side_monitor(cases, baseline, parts, acc, attributed, say):
+    """XSD validity of the saved slides relative to the slides before the assignments."""
     for si, before in enumerate(baseline):
         after, _ = xsdkit.validate_part(parts[si])
         acc.count("slide_parts_validated")
@@ -499,32 +494,38 @@ def side_monitor(cases, baseline, parts, acc, attributed, say):
             acc.count("slide_parts_without_schema_verdict")
             continue
         for m in xsdkit.new_errors(before, after):
-            mc = msg_class(m)
+            key = "invalid-xml:" + msg_class(m)
             say("new schema error", m)
-            if mc not in attributed and len(cases) > 1:  # find one case that produces it on its own
-                for c in [c for c in cases if c.si == si]:
-                    probe = Acc0()
-                    run_batch([Case(c.level, c.state, c.s, c.cls, 1)], 1, probe, {})
-                    if mc in probe.msgs:
-                        attributed[mc] = c
-                        break
-            c = attributed.get(mc) or [c for c in cases if c.si == si][0]
-            attributed.setdefault(mc, c)
-            if hasattr(acc, "msgs"):
-                acc.msgs.add(mc)
-            acc.violation("invalid-xml:" + mc, "%s: saved slide has a new schema error: %s" % (c.show(), m), c.witness())
+            c = attribute([c for c in cases if c.si == si], key, attributed)
+            acc.violation(key, "%s: saved slide has a new schema error: %s" % (c.show(), m), c.witness())
 
 
-class Acc0:
-    """Throw-away recorder used only to attribute a schema error of a deck to a single case."""
+def attribute(cases, key, attributed):
+    """A deck-level observation (schema error, save/load failure) is pinned on one case that shows it when run alone."""
+    if key not in attributed:
+        attributed[key] = cases[0]
+        for c in cases if len(cases) > 1 else []:
+            probe = Probe()
+            run_batch([Case(c.level, c.state, c.s, c.cls, c.cycles)], c.cycles, probe, {})
+            if key in probe.keys:
+                attributed[key] = c
+                break
+    return attributed[key]
+
+
+class Probe:
+    """Recorder for those single-case re-runs: keeps violation keys, counts nothing."""
 
     def __init__(self):
-        self.msgs = set()
+        self.keys = set()
 
-    def _noop(self, *a, **k):
+    def violation(self, key, what, witness):
+        self.keys.add(key)
+
+    def case(self, *a, **k):
         pass
 
-    case = count = hit = violation = _noop
+    count = hit = case
 
 
 # ---------------------------------------------------------------- contract
@@ -550,10 +551,9 @@ def replay(w, acc):
 
 
 def finalize(acc, tier, seed):
-    for level in LEVELS:
-        for end in (" setter", " getter"):
-            if not acc.reach.get(API[level] + end):
-                acc.inconclusive.append("never reached: " + API[level] + end)
+    for name in [API[level] + end for level in LEVELS for end in (" setter", " getter")]:
+        if not acc.reach.get(name):
+            acc.inconclusive.append("never reached: " + name)
     for name in ("saves", "reopens", "reopen_comparisons", "independent_reconstructions", "element_trees_inspected", "slide_parts_validated"):
         if not acc.counters.get(name):
             acc.inconclusive.append("monitor never reached: " + name)
